@@ -46,6 +46,26 @@ fn emit_history(out: &mut impl Write, prefix: &str, lang: &str, parser: &mut Par
                     if !cursor.goto_parent() { break 'walk; }
                 }
             }
+            // stand-alone range edits on synthetic ranges around the 32-bit sentinels (open end, ends that
+            // the shift pushes past 2^32): judged against range_edit_sat
+            {
+                let m = u32::MAX as usize;
+                let d = ie.new_end_byte.saturating_sub(ie.old_end_byte);
+                let pt = |b: usize| tree_sitter::Point { row: 0, column: b.min(1000) };
+                let cands: Vec<(usize, usize)> = vec![
+                    (0, m), (ie.old_end_byte, m), (6.min(cur.len()), m - 3), (0, m - 1), (m - 10, m - 2),
+                    (0, m - d), (0, (m - d).saturating_sub(1)), (1, m.saturating_sub(d / 2 + 1)), (m - 1, m), (m - d.min(m), m - d.min(m)),
+                ];
+                for (sb, eb) in cands {
+                    if sb > eb { continue; }
+                    let mut r = tree_sitter::Range { start_byte: sb, end_byte: eb, start_point: pt(sb), end_point: if eb == m { tree_sitter::Point { row: m, column: m } } else { pt(eb) } };
+                    let r0 = r;
+                    ie.edit_range(&mut r);
+                    helper_lines.push(format!("hr {} {} {} {} {} {} {} {} {} {} {} {}", r0.start_byte, r0.end_byte,
+                        r0.start_point.row, r0.start_point.column, r0.end_point.row, r0.end_point.column,
+                        r.start_byte, r.end_byte, r.start_point.row, r.start_point.column, r.end_point.row, r.end_point.column));
+                }
+            }
             for k in 0..6 {
                 let b = (cur.len() * k) / 5;
                 let mut p = point_at(&cur, b);
